@@ -115,6 +115,24 @@ class C19(PropCheck):
             leafline = f"  Target of innermost frame: {s.leaf!r}\n" if s.leaf is not None else ""
             flats.append(header.replace("\n", "⏎") + "§" + sm + "§" + leafline.replace("\n", "⏎") + "§" +
                          "¦".join(l.replace("\n", "⏎") for l in (tail[1:] if s.leaf is not None else tail)))
+        # ---- a history on one Stack object: each projection is made from what the frames say NOW, and belongs to its caller ----
+        vis = [f for f in s.frames if not f.hide]
+        if vis:
+            first = s.as_stdlib_summary()
+            for fs in first:
+                fs.name = "edited by the summary's owner"          # (the caller's own list of its own FrameSummary objects)
+            f0 = vis[0]
+            old = f0.lineno
+            f0.lineno = old + 1                                      # the Frame is re-anchored (documented, settable field)
+            try:
+                second = s.as_stdlib_summary()
+                got = [(fs.filename, fs.lineno, fs.name) for fs in second]
+                want = [(f.filename, f.lineno, f.funcname) for f in vis]
+                if got != want:
+                    self._probs.append(f"a second projection of the same Stack (after its owner edited the first summary and a frame's "
+                                       f"lineno was changed) is not what the frames say now: {got[:2]} vs {want[:2]}")
+            finally:
+                f0.lineno = old
         case["_stack"] = trees.d_stack(s)
         return "‖".join(parts) + "##" + "‖".join(flats)
 
